@@ -520,10 +520,9 @@ def run(ctx):
             configs.append((k1 + k2 + "-child", procs2(k1, k2, child=True)))
     # three processes, one attempt each: the smallest setting in which a process can come and go while another
     # is parked between two of its calls (windows K2 and K3 need a third party)
-    for ks in ("SEE", "SSE"):
-        configs.append((ks + "-ntry1", [{"pid": i + 1, "kind": k, "root": None, "ntry": 1} for i, k in enumerate(ks)]))
+    configs.append(("SEE-ntry1", [{"pid": i + 1, "kind": k, "root": None, "ntry": 1} for i, k in enumerate("SEE")]))
     if ctx.tier == "thorough":
-        for ks in ("SSS", "EEE"):
+        for ks in ("SSE", "SSS", "EEE"):
             configs.append((ks + "-ntry1", [{"pid": i + 1, "kind": k, "root": None, "ntry": 1} for i, k in enumerate(ks)]))
         configs.append(("E+siblings-ES-ntry1",
                         [{"pid": 1, "kind": "E", "root": None, "ntry": 1}, {"pid": 2, "kind": "E", "root": 1, "ntry": 1},
